@@ -82,6 +82,9 @@ def is_null(v):
     return v is None or v in NA
 
 
+GLUE_VALS = {sep: ['a' + sep + 'b', 'c', 'a', 'b' + sep + 'c', 'a' + sep, sep + 'b', 'b'] for sep in '_-.~|,;: /#'}
+
+
 def gen_rows(rng, cols, keycols, n, fmt, nullable=()):
     rows = []
     for i in range(n):
@@ -94,6 +97,10 @@ def gen_rows(rng, cols, keycols, n, fmt, nullable=()):
                 x = rng.random()
                 if x < 0.18:
                     r[c] = None if (fmt != 'csv' and rng.random() < 0.6) else rng.choice(NA)
+                elif len(keycols) >= 2 and x < 0.55:
+                    # several join columns: values that collide when the key tuple is glued with a separator
+                    # (('a_b', 'c') vs ('a', 'b_c')); `_`, `-`, `.`, `~` need no escaping in IRIs
+                    r[c] = rng.choice(GLUE_VALS[rng.choice('_-.~')])
                 else:
                     r[c] = rng.choice(KEYVALS[:rng.choice([2, 3, 5])])
             elif c == 'id':
@@ -630,6 +637,8 @@ def i4_gen(rng):
         p = rng.choice(pcols) if rng.random() < 0.95 else 'zz'
         conds.append([c, p])
     vals = ['x', 'y', 'z'][:rng.choice([1, 2, 3])]
+    if nc >= 2 and rng.random() < 0.5:
+        vals = GLUE_VALS[rng.choice('_-.~|,;: /#')]
     data = [[[c, rng.choice(vals)] for c in ccols] for _ in range(rng.randrange(0, 5))]
     par = [[[c, rng.choice(vals)] for c in pcols] for _ in range(rng.randrange(0, 5))]
     return {'i4': True, 'ccols': ccols, 'pcols': pcols, 'data': data, 'parent': par, 'conds': conds}
@@ -690,7 +699,23 @@ def i4_one(ctx, drv, inp):
             ctx.disagree('Spec.innerJoin vs _merge_data (pair count)', inp, len(pairs), len(impl['rows']))
 
 
+def i4_glue_inputs():
+    """two / three join conditions whose key tuples differ but coincide when glued with a separator (or with none)"""
+    out = []
+    for sep in ['', '_', '-', '.', '~', '|', ',', ';', ':', ' ', '/', '#', '\t', '\x1f', '\x00']:
+        for (ca, cb), (pa, pb) in ((('a' + sep + 'b', 'c'), ('a', 'b' + sep + 'c')), (('a' + sep, 'b'), ('a', sep + 'b')),
+                                   (('ab', 'c'), ('a', 'bc'))):
+            if (ca, cb) == (pa, pb):
+                continue
+            out.append({'i4': True, 'ccols': ['k', 'k2', 'id'], 'pcols': ['k', 'j'],
+                        'data': [[['k', ca], ['k2', cb], ['id', '1']], [['k', pa], ['k2', pb], ['id', '2']]],
+                        'parent': [[['k', pa], ['j', pb]]], 'conds': [['k', 'k'], ['k2', 'j']]})
+    return out
+
+
 def i4_merge(ctx, drv, n):
+    for inp in i4_glue_inputs():
+        i4_one(ctx, drv, inp)
     for _ in range(n):
         i4_one(ctx, drv, i4_gen(ctx.rng))
 
